@@ -47,9 +47,11 @@ import (
 )
 
 type Case struct {
-	ID   int      `json:"id"`
-	Src  string   `json:"src"`
-	Muts []string `json:"muts"`
+	ID    int               `json:"id"`
+	Src   string            `json:"src"`
+	Muts  []string          `json:"muts"`
+	Files map[string]string `json:"files"` // a set of .api files importing one another; Src = Files[Root]
+	Root  string            `json:"root"`
 }
 
 type Out struct {
@@ -71,6 +73,7 @@ type Out struct {
 	Idem  bool     `json:"idem"`
 	File  string   `json:"file"`
 	Conc  string   `json:"conc"`
+	Multi string   `json:"multi,omitempty"`
 	Muts  []string `json:"muts"`
 	Err   string   `json:"err,omitempty"`
 }
@@ -378,6 +381,114 @@ func formatFile(id int, src string, want string, wantOK bool) string {
 	return "same"
 }
 
+// multiFile: the API description that goctl's analyzer (parser.Parse: imports resolved, types and
+// services of all files merged) reads off a set of files must be the same before and after every
+// file of the set was formatted with format.File, and formatting the files again changes nothing.
+func multiFile(c Case) string {
+	dir := filepath.Join(filepath.Dir(os.Getenv("VERIF_OUT")), fmt.Sprintf("c20_multi_%d_%d", os.Getpid(), c.ID))
+	if err := os.MkdirAll(dir, 0o755); err != nil {
+		return "scratch dir: " + err.Error()
+	}
+	defer os.RemoveAll(dir)
+	for name, text := range c.Files {
+		if err := os.WriteFile(filepath.Join(dir, name), []byte(text), 0o644); err != nil {
+			return "scratch file: " + err.Error()
+		}
+	}
+	describe := func() (string, string) {
+		var js []byte
+		var perr error
+		out := guarded(func() {
+			spec, err := parser.Parse(filepath.Join(dir, c.Root), nil)
+			if err != nil {
+				perr = err
+				return
+			}
+			raw, err := json.Marshal(spec)
+			if err != nil {
+				perr = err
+				return
+			}
+			// comments travel with the declarations as documentation (their placement may differ),
+			// and an empty @doc "" is the same as no @doc: both are left out of the comparison
+			var v any
+			if perr = json.Unmarshal(raw, &v); perr != nil {
+				return
+			}
+			js, perr = json.Marshal(stripDocs(v))
+		})
+		if out != "ok" {
+			return "", "analyzer " + out
+		}
+		if perr != nil {
+			return "", "analyzer error: " + trunc(perr.Error(), 200)
+		}
+		return string(js), ""
+	}
+	before, e1 := describe()
+	if e1 != "" {
+		return "before formatting: " + e1
+	}
+	texts := map[string]string{}
+	for pass := 1; pass <= 2; pass++ {
+		for name := range c.Files {
+			var ferr error
+			out := guarded(func() { ferr = format.File(filepath.Join(dir, name)) })
+			if out != "ok" || ferr != nil {
+				return fmt.Sprintf("format.File(%s) pass %d: %s %v", name, pass, out, ferr)
+			}
+			data, _ := os.ReadFile(filepath.Join(dir, name))
+			if pass == 2 && texts[name] != string(data) {
+				return "formatting " + name + " again changed it"
+			}
+			texts[name] = string(data)
+		}
+		after, e2 := describe()
+		if e2 != "" {
+			return fmt.Sprintf("after pass %d: %s", pass, e2)
+		}
+		if after != before {
+			k := 0
+			for k < len(after) && k < len(before) && after[k] == before[k] {
+				k++
+			}
+			lo := k - 60
+			if lo < 0 {
+				lo = 0
+			}
+			return fmt.Sprintf("the API description of the file set changed with pass %d: ...%s | ...%s", pass,
+				trunc(before[lo:], 140), trunc(after[lo:], 140))
+		}
+	}
+	return "same"
+}
+
+func stripDocs(v any) any {
+	switch x := v.(type) {
+	case map[string]any:
+		for k, e := range x {
+			switch k {
+			case "Doc", "Docs", "Comment", "Comments", "HandlerDoc", "HandlerComment":
+				delete(x, k)
+				continue
+			case "Text":
+				if t, ok := e.(string); ok && (t == `""` || t == "``") {
+					x[k] = ""
+					continue
+				}
+			}
+			x[k] = stripDocs(e)
+		}
+		return x
+	case []any:
+		for i := range x {
+			x[i] = stripDocs(x[i])
+		}
+		return x
+	}
+	return v
+}
+
 func trunc(s string, n int) string {
 	if len(s) > n {
 		return s[:n]
@@ -410,6 +521,9 @@ func runCase(c Case) Out {
 		o.Idem = true
 	}
 	o.File = formatFile(c.ID, c.Src, o.Fmt1, o.Fout == "ok")
+	if len(c.Files) > 0 {
+		o.Multi = multiFile(c)
+	}
 	for _, m := range c.Muts {
 		if len(m) == 0 {
 			o.Muts = append(o.Muts, "skipped-empty")
